@@ -216,7 +216,7 @@ func init() {
 		Explanation: "Decides the preconditions and wiring SubMerge relies on: (a) resolution ≥ source and resolution/stride multiples of the source resolution are validated (errors) before a group-by is planned; (b) same-typed arguments out/in (resolutions, expression lists) are never swapped between group.Iterate, bytetree.New, the Tree's fields and Sequence.SubMerge; (c) group keys are built from name-sorted GroupBy lists at both construction sites. Added clauses: purity; every needsGroupBy disjunct (also inside a private bool helper) forces the group-by; = C11.b and = C13.a for the cluster and error paths of re-aggregation.",
 		NotDecided:  []string{"the bucket arithmetic floor((po+untilOffset)/scale)", "anchoring at the moving 'now'", "values of re-computed ratios"},
 		Assumptions: []string{"role names out*/in*, resolution/otherResolution, ex/otherEx are used consistently in bytetree and encoding"},
-		Rules: []func(*Ctx){func(c *Ctx) { ruleC06a(c, "C06.a") }, func(c *Ctx) { ruleC06b(c, "C06.b") }, func(c *Ctx) { ruleC06c(c, "C06.c") }, func(c *Ctx) { rulePurity(c, "C06.d") }, func(c *Ctx) { ruleC06e(c, "C06.e") }, func(c *Ctx) { ruleC11b(c, "C06.f") }, func(c *Ctx) {
+		Rules: []func(*Ctx){func(c *Ctx) { ruleC05d(c, "C06.h") }, func(c *Ctx) { ruleC06i(c, "C06.i") }, func(c *Ctx) { ruleC06a(c, "C06.a") }, func(c *Ctx) { ruleC06b(c, "C06.b") }, func(c *Ctx) { ruleC06c(c, "C06.c") }, func(c *Ctx) { rulePurity(c, "C06.d") }, func(c *Ctx) { ruleC06e(c, "C06.e") }, func(c *Ctx) { ruleC11b(c, "C06.f") }, func(c *Ctx) {
 			// a coarse row built from a partial scan is not the aggregate of "exactly the points whose key projects onto it"
 			saved := c.ruleDesc
 			ruleC13aAs(c, "C06.g")
@@ -445,4 +445,23 @@ func boolHelperTrueWhen(h *ssa.Function, pred func(ssa.Value) bool, val bool, ni
 		}
 	}
 	return false
+}
+
+// ruleC06i: a select clause is resolved afresh against the fields it is given.
+func ruleC06i(c *Ctx, rule string) {
+	c.describe(rule, "dom: (*fielded).init rebuilds the lookup map of known fields on every call (an unconditional fresh map) — a query's select clause is resolved twice, by the planner against the table's fields and by the group operator against its source's fields; a map kept from the first pass lets aliases shadow the source columns, so 'SELECT a / 2 AS a' is divided twice when re-aggregated")
+	fn := c.need(rule, "(*z/sql.fielded).init")
+	if fn == nil {
+		return
+	}
+	ok := false
+	for _, st := range fieldStores(fn, "z/sql.fielded.fieldsMap") {
+		if _, isMM := st.Val.(*ssa.MakeMap); isMM && st.Block() == fn.Blocks[0] {
+			ok = true
+		}
+		if _, isMM := st.Val.(*ssa.MakeMap); isMM && dominatesAllReturns(fn, st) {
+			ok = true
+		}
+	}
+	c.check(rule, "fielded.init starts from an empty map on every call", fn.Pos(), ok, "f.fieldsMap = make(…) unconditionally", "the field lookup map is not rebuilt on every resolution (kept when already present): names added while resolving the clause once are still there the second time and shadow the columns of the source")
 }
